@@ -238,6 +238,13 @@ class RefShampoo:
         # rank-deficient statistic cannot amplify float32 rounding into the
         # update comparison.
         if obs[name].get("stats") is not None:
+          if len(obs[name]["stats"]) != len(lf.stats):
+            # wrong number of statistics for this leaf: reported as an
+            # infinite deviation, the reference keeps its own statistics
+            self.stat_dev.append((name, -1, float("inf")))
+            obs = dict(obs)
+            obs[name] = dict(obs[name], stats=[])
+            obs[name]["err"] = np.full(len(lf.stats), np.nan)
           for k, simpl in enumerate(obs[name]["stats"]):
             simpl = np.asarray(simpl, np.float64)
             sref = lf.stats[k]
